@@ -773,3 +773,578 @@ Proof.
   destruct (Nat.eqb_spec q0 q) as [->|Hne]; simpl; auto.
   destruct (q <? length (queues c)); auto.
 Qed.
+
+(* ------------------------------------------------------------------------- *)
+(* frame facts: what a step can and cannot change                            *)
+(* ------------------------------------------------------------------------- *)
+
+Ltac frame_field f :=
+  try reflexivity; rewrite getq_sett; apply (getq_setq_field f); simpl; congruence.
+
+Lemma step_cap c t c' q0 : step c t = Some c' -> qcap (getq c' q0) = qcap (getq c q0).
+Proof. intros H; apply step_stepR in H; stepR_cases H; frame_field qcap. Qed.
+
+Lemma step_closed_mono c t c' q0 :
+  step c t = Some c' -> qclosed (getq c q0) = true -> qclosed (getq c' q0) = true.
+Proof.
+  intros H Hclo; apply step_stepR in H; stepR_cases H; try exact Hclo;
+    try (rewrite <- Hclo; frame_field qclosed).
+  rewrite getq_sett, getq_setq. destruct (_ && _); auto.
+Qed.
+
+Lemma run_closed_mono c s q0 :
+  qclosed (getq c q0) = true -> qclosed (getq (run c s) q0) = true.
+Proof.
+  revert c; induction s as [|t s IH]; intros c Hc; simpl; auto.
+  destruct (step c t) eqn:E; auto. apply IH. eapply step_closed_mono; eauto.
+Qed.
+
+(* no token is published on a closed queue *)
+Lemma step_closed_tok c t c' q0 :
+  step c t = Some c' -> qclosed (getq c q0) = true -> qtok (getq c' q0) <= qtok (getq c q0).
+Proof.
+  intros H Hclo; apply step_stepR in H; stepR_cases H; try (apply Nat.le_refl);
+    rewrite getq_sett, getq_setq;
+    destruct (Nat.eqb_spec q0 q) as [->|]; simpl; try lia;
+    destruct (q <? length (queues c)); simpl; try lia.
+  congruence.
+Qed.
+
+(* the append history only grows, at its end; so does the pop history *)
+Lemma step_app_mono c t c' q0 :
+  step c t = Some c' -> exists l, qapp (getq c' q0) = qapp (getq c q0) ++ l.
+Proof.
+  intros H; apply step_stepR in H; stepR_cases H;
+    try (exists []; rewrite app_nil_r; frame_field qapp).
+  rewrite getq_sett, getq_setq. destruct (_ && _) eqn:E; simpl.
+  - apply andb_prop in E. destruct E as [E _]. apply Nat.eqb_eq in E. subst. eauto.
+  - exists []; now rewrite app_nil_r.
+Qed.
+
+Lemma step_pop_mono c t c' q0 :
+  step c t = Some c' -> exists l, qpop (getq c' q0) = qpop (getq c q0) ++ l.
+Proof.
+  intros H; apply step_stepR in H; stepR_cases H;
+    try (exists []; rewrite app_nil_r; frame_field qpop);
+    rewrite getq_sett, getq_setq; (destruct (_ && _) eqn:E; simpl;
+    [ apply andb_prop in E; destruct E as [E _]; apply Nat.eqb_eq in E; subst; eauto
+    | exists []; now rewrite app_nil_r ]).
+Qed.
+
+Lemma run_app_mono c s q0 : exists l, qapp (getq (run c s) q0) = qapp (getq c q0) ++ l.
+Proof.
+  revert c; induction s as [|t s IH]; intros c; simpl.
+  - exists []; now rewrite app_nil_r.
+  - destruct (step c t) as [c1|] eqn:E; auto.
+    destruct (step_app_mono _ _ _ q0 E) as [l1 H1]. destruct (IH c1) as [l2 H2].
+    exists (l1 ++ l2). now rewrite H2, H1, app_assoc.
+Qed.
+
+Lemma run_pop_mono c s q0 : exists l, qpop (getq (run c s) q0) = qpop (getq c q0) ++ l.
+Proof.
+  revert c; induction s as [|t s IH]; intros c; simpl.
+  - exists []; now rewrite app_nil_r.
+  - destruct (step c t) as [c1|] eqn:E; auto.
+    destruct (step_pop_mono _ _ _ q0 E) as [l1 H1]. destruct (IH c1) as [l2 H2].
+    exists (l1 ++ l2). now rewrite H2, H1, app_assoc.
+Qed.
+
+Lemma run_queues_length c s : length (queues (run c s)) = length (queues c).
+Proof.
+  revert c; induction s as [|t s IH]; intros c; simpl; auto.
+  destruct (step c t) eqn:E; auto. rewrite IH. eapply step_queues_length; eauto.
+Qed.
+
+Lemma run_threads_length c s : length (threads (run c s)) = length (threads c).
+Proof.
+  revert c; induction s as [|t s IH]; intros c; simpl; auto.
+  destruct (step c t) eqn:E; auto. rewrite IH. eapply step_threads_length; eauto.
+Qed.
+
+(* ------------------------------------------------------------------------- *)
+(* C04: FIFO                                                                 *)
+(* ------------------------------------------------------------------------- *)
+
+Theorem fifo_prefix c0 c q : initial c0 -> reachable c0 c ->
+  qapp (getq c q) = qpop (getq c q) ++ qvals (getq c q).
+Proof.
+  intros Hi Hr. destruct (Nat.lt_ge_cases q (length (queues c))) as [Hlt|Hge].
+  - apply (reachable_inv _ _ Hi Hr). exact Hlt.
+  - rewrite getq_oob by auto. reflexivity.
+Qed.
+
+(* thread t is at the scheduling point of AddValue(v) on queue q *)
+Definition at_add (c : config) (t q : nat) (v : Z) : Prop :=
+  tph (gett c t) = PIdle /\ exists rest, tcalls (gett c t) = CAdd q v :: rest.
+(* thread t holds a claim of RemoveHead on queue q and is about to pop *)
+Definition at_pop (c : config) (t q : nat) : Prop :=
+  tph (gett c t) = PPop q.
+
+(* the append step appends exactly its value at the end of the list and of the history *)
+Lemma append_step c t c' qa va :
+  at_add c t qa va -> qa < length (queues c) -> step c t = Some c' ->
+  qapp (getq c' qa) = qapp (getq c qa) ++ [va] /\
+  qvals (getq c' qa) = qvals (getq c qa) ++ [va] /\
+  qpop (getq c' qa) = qpop (getq c qa) /\
+  qtok (getq c' qa) = qtok (getq c qa) /\
+  tph (gett c' t) = PSend qa /\
+  (forall q0, q0 <> qa -> getq c' q0 = getq c q0).
+Proof.
+  intros [Hp [rest0 Hc0]] Hq H. pose proof (step_tid _ _ _ H) as Hlt.
+  apply step_stepR in H; stepR_cases H; try congruence.
+  rewrite Hc0 in Hc; inversion Hc; subst.
+  rewrite gett_sett_eq by (simpl; auto). rewrite getq_sett, getq_setq_eq by auto. simpl.
+  repeat split; auto. intros q0 Hne. rewrite getq_sett. now apply getq_setq_neq.
+Qed.
+
+(* a step that is not an append step leaves every append history alone *)
+Lemma non_append_step c t c' q0 :
+  step c t = Some c' -> (forall q v, ~ at_add c t q v) -> qapp (getq c' q0) = qapp (getq c q0).
+Proof.
+  intros H Hn; apply step_stepR in H; stepR_cases H; try (frame_field qapp).
+  exfalso; eapply Hn; split; eauto.
+Qed.
+
+(* the pop step of RemoveHead removes exactly the head of the list and returns it *)
+Lemma pop_step c t c' qa :
+  Inv2 c -> at_pop c t qa -> step c t = Some c' ->
+  exists v vs,
+    qvals (getq c qa) = v :: vs /\ qvals (getq c' qa) = vs /\
+    qpop (getq c' qa) = qpop (getq c qa) ++ [v] /\
+    qapp (getq c' qa) = qapp (getq c qa) /\
+    qtok (getq c' qa) = qtok (getq c qa) /\
+    tres (gett c' t) = tres (gett c t) ++ [RHead v true] /\
+    tph (gett c' t) = PIdle /\
+    (forall q0, q0 <> qa -> getq c' q0 = getq c q0).
+Proof.
+  intros [HI HR] Hp H. pose proof (step_tid _ _ _ H) as Hlt. unfold at_pop in Hp.
+  assert (Hq : qa < length (queues c)) by (eapply rng_gett; eauto).
+  apply step_stepR in H; stepR_cases H; try congruence;
+    rewrite Hp in Hph; inversion Hph; subst q.
+  - exists v, vs. rewrite gett_sett_eq by (simpl; auto).
+    rewrite getq_sett, getq_setq_eq by auto. simpl.
+    rewrite tres_finish_head, tph_finish_head. repeat split; auto.
+    intros q0 Hne. rewrite getq_sett. now apply getq_setq_neq.
+  - exfalso. pose proof (holds_le_vals c qa t HI Hq Hlt) as Hle.
+    rewrite (holds_pop qa qa _ Hp), Nat.eqb_refl, Hv in Hle. simpl in Hle. lia.
+Qed.
+
+(* AddValue calls that do not overlap are appended in call order: if the append step of v
+   happens before the append step of w then v precedes w in the append history *)
+Theorem fifo_realtime_add c1 t1 c1' q v s t2 c2' w :
+  q < length (queues c1) ->
+  at_add c1 t1 q v -> step c1 t1 = Some c1' ->
+  at_add (run c1' s) t2 q w -> step (run c1' s) t2 = Some c2' ->
+  exists l1 l2, qapp (getq c2' q) = l1 ++ [v] ++ l2 ++ [w].
+Proof.
+  intros Hq A1 S1 A2 S2.
+  destruct (append_step _ _ _ _ _ A1 Hq S1) as (E1 & _).
+  assert (Hq2 : q < length (queues (run c1' s))).
+  { rewrite run_queues_length. now rewrite (step_queues_length _ _ _ S1). }
+  destruct (append_step _ _ _ _ _ A2 Hq2 S2) as (E2 & _).
+  destruct (run_app_mono c1' s q) as [l2 E3].
+  exists (qapp (getq c1 q)), l2. rewrite E2, E3, E1. now rewrite <- !app_assoc.
+Qed.
+
+(* RemoveHead calls that do not overlap pop in that order *)
+Theorem fifo_realtime_pop c1 t1 c1' q s t2 c2' :
+  Inv2 c1 -> at_pop c1 t1 q -> step c1 t1 = Some c1' ->
+  at_pop (run c1' s) t2 q -> step (run c1' s) t2 = Some c2' ->
+  exists v w l1 l2,
+    qpop (getq c2' q) = l1 ++ [v] ++ l2 ++ [w] /\
+    (exists r, tres (gett c1' t1) = r ++ [RHead v true]) /\
+    (exists r, tres (gett c2' t2) = r ++ [RHead w true]).
+Proof.
+  intros HI A1 S1 A2 S2.
+  destruct (pop_step _ _ _ _ HI A1 S1) as (v & vs & _ & _ & E1 & _ & _ & R1 & _).
+  assert (HI1 : Inv2 (run c1' s)).
+  { apply (run_ind_inv Inv2); [intros; eapply step_preserves_inv2; eauto|].
+    eapply step_preserves_inv2; eauto. }
+  destruct (pop_step _ _ _ _ HI1 A2 S2) as (w & ws & _ & _ & E2 & _ & _ & R2 & _).
+  destruct (run_pop_mono c1' s q) as [l2 E3].
+  exists v, w, (qpop (getq c1 q)), l2. split; [|split; eauto].
+  rewrite E2, E3, E1. now rewrite <- !app_assoc.
+Qed.
+
+(* ------------------------------------------------------------------------- *)
+(* C04: panics                                                               *)
+(* ------------------------------------------------------------------------- *)
+
+(* every way a thread can panic: a send on a closed channel (AddValue on a closed queue) or a
+   close of a closed channel.  In particular the pop of RemoveHead and the discard of
+   RemoveAll never meet an empty list. *)
+Theorem stuck_only_by c t c' :
+  Inv2 c -> step c t = Some c' -> tph (gett c' t) = PStuck ->
+  (exists q v rest, tph (gett c t) = PSend q /\ tcalls (gett c t) = CAdd q v :: rest /\
+                    qclosed (getq c q) = true) \/
+  (exists q rest, tph (gett c t) = PIdle /\ tcalls (gett c t) = CClose q :: rest /\
+                  qclosed (getq c q) = true).
+Proof.
+  intros [HI HR] H. pose proof (step_tid _ _ _ H) as Hlt.
+  assert (Hth : T_inv (gett c t)) by (apply T_inv_gett; apply HI).
+  apply step_stepR in H; stepR_cases H; rewrite gett_sett_eq by (simpl; auto);
+    try rewrite tph_finish_head; simpl; try discriminate; intros _.
+  - left. unfold T_inv in Hth; rewrite Hph in Hth. destruct Hth as (v' & rest' & E). eauto 8.
+  - exfalso. assert (Hq : q < length (queues c)) by (eapply rng_gett; eauto).
+    pose proof (holds_le_vals c q t HI Hq Hlt) as Hle.
+    rewrite (holds_pop q q _ Hph), Nat.eqb_refl, Hv in Hle. simpl in Hle. lia.
+  - right. eauto 8.
+  - exfalso. assert (Hq : q < length (queues c)) by (eapply rng_gett; eauto).
+    pose proof (holds_le_vals c q t HI Hq Hlt) as Hle.
+    rewrite (holds_disc q q _ Hph), Nat.eqb_refl, Hv in Hle. simpl in Hle. lia.
+Qed.
+
+Theorem no_pop_panic c t c' qa :
+  Inv2 c -> step c t = Some c' ->
+  tph (gett c t) = PPop qa \/ tph (gett c t) = PDiscard qa ->
+  tph (gett c' t) <> PStuck.
+Proof.
+  intros HI H Hp Hs. destruct (stuck_only_by _ _ _ HI H Hs) as [(q & v & rest & A & _)|(q & rest & A & _)];
+    destruct Hp as [Hp|Hp]; congruence.
+Qed.
+
+(* ------------------------------------------------------------------------- *)
+(* C04: results                                                              *)
+(* ------------------------------------------------------------------------- *)
+
+(* every step leaves the results of the other threads alone, and appends at most one result *)
+Lemma step_other_thread c t c' t' : step c t = Some c' -> t' <> t -> gett c' t' = gett c t'.
+Proof.
+  intros H Hne; apply step_stepR in H; stepR_cases H; now rewrite gett_sett_neq.
+Qed.
+
+Ltac tres_len H :=
+  apply (f_equal (@length result)) in H; rewrite app_length in H; simpl in H; lia.
+
+Ltac tres_inj H :=
+  first [ apply app_inv_head in H; inversion H; subst | tres_len H ].
+
+(* ok = false only when the queue is closed and drained *)
+Theorem ok_false_step c t c' va :
+  step c t = Some c' -> tres (gett c' t) = tres (gett c t) ++ [RHead va false] ->
+  exists q rest, tph (gett c t) = PIdle /\ tcalls (gett c t) = CRemoveHead q :: rest /\
+    qclosed (getq c q) = true /\ qtok (getq c q) = 0 /\ va = 0%Z.
+Proof.
+  intros H. pose proof (step_tid _ _ _ H) as Hlt.
+  apply step_stepR in H; stepR_cases H; rewrite gett_sett_eq by (simpl; auto);
+    try rewrite tres_finish_head; simpl; intros E; tres_inj E.
+  eauto 10.
+Qed.
+
+(* ... and then every value still in the list is claimed or belongs to an unfinished AddValue *)
+Theorem ok_false_drained c t c' v q rest :
+  Inv c -> step c t = Some c' -> tres (gett c' t) = tres (gett c t) ++ [RHead v false] ->
+  tcalls (gett c t) = CRemoveHead q :: rest -> q < length (queues c) ->
+  length (qvals (getq c q)) =
+    cnt (in_send q) (threads c) + cnt (in_pop q) (threads c) +
+    cnt (in_disc q) (threads c) + cnt (orphan q) (threads c).
+Proof.
+  intros HI H E Hc Hq. destruct (ok_false_step _ _ _ _ H E) as (q' & rest' & _ & Hc' & _ & Htok & _).
+  rewrite Hc in Hc'; inversion Hc'; subst q'.
+  destruct (proj2 HI q Hq) as (_ & B & _). lia.
+Qed.
+
+(* back-pressure: AddValue returns only through a send step taken with room in the channel *)
+Theorem added_step c t c' :
+  step c t = Some c' -> tres (gett c' t) = tres (gett c t) ++ [RAdded] ->
+  exists q, tph (gett c t) = PSend q /\
+    qclosed (getq c q) = false /\ qtok (getq c q) < qcap (getq c q) /\
+    qtok (getq c' q) = S (qtok (getq c q)) /\ qvals (getq c' q) = qvals (getq c q).
+Proof.
+  intros H. pose proof (step_tid _ _ _ H) as Hlt.
+  apply step_stepR in H; stepR_cases H; rewrite gett_sett_eq by (simpl; auto);
+    try rewrite tres_finish_head; simpl; intros E; tres_inj E.
+  exists q. assert (Hq : q < length (queues c)) by (apply getq_cap_inrange; lia).
+  rewrite getq_sett, getq_setq_eq by auto. simpl. auto.
+Qed.
+
+Theorem size_step c t c' n :
+  Inv c -> step c t = Some c' -> tres (gett c' t) = tres (gett c t) ++ [RSize n] ->
+  exists q rest, tcalls (gett c t) = CGetSize q :: rest /\
+    n = qtok (getq c q) /\ n <= qcap (getq c q).
+Proof.
+  intros HI H. pose proof (step_tid _ _ _ H) as Hlt.
+  apply step_stepR in H; stepR_cases H; rewrite gett_sett_eq by (simpl; auto);
+    try rewrite tres_finish_head; simpl; intros E; tres_inj E.
+  exists q, rest. repeat split; auto.
+  destruct (Nat.lt_ge_cases q (length (queues c))) as [Hq|Hq].
+  - apply (proj2 HI q Hq).
+  - rewrite getq_oob by auto. simpl. lia.
+Qed.
+
+Theorem empty_step c t c' b :
+  step c t = Some c' -> tres (gett c' t) = tres (gett c t) ++ [REmpty b] ->
+  exists q rest, tcalls (gett c t) = CIsEmpty q :: rest /\
+    (b = true <-> qtok (getq c q) = 0).
+Proof.
+  intros H. pose proof (step_tid _ _ _ H) as Hlt.
+  apply step_stepR in H; stepR_cases H; rewrite gett_sett_eq by (simpl; auto);
+    try rewrite tres_finish_head; simpl; intros E; tres_inj E.
+  exists q, rest. split; auto. apply Nat.eqb_eq.
+Qed.
+
+(* AsArray returns the list: exactly the values appended and not yet popped, in append order *)
+Theorem array_step c t c' l :
+  Inv c -> step c t = Some c' -> tres (gett c' t) = tres (gett c t) ++ [RArray l] ->
+  exists q rest, tcalls (gett c t) = CAsArray q :: rest /\
+    l = qvals (getq c q) /\ qapp (getq c q) = qpop (getq c q) ++ l.
+Proof.
+  intros HI H. pose proof (step_tid _ _ _ H) as Hlt.
+  apply step_stepR in H; stepR_cases H; rewrite gett_sett_eq by (simpl; auto);
+    try rewrite tres_finish_head; simpl; intros E; tres_inj E.
+  exists q, rest. repeat split; auto.
+  destruct (Nat.lt_ge_cases q (length (queues c))) as [Hq|Hq].
+  - apply (proj2 HI q Hq).
+  - rewrite getq_oob by auto. reflexivity.
+Qed.
+
+(* a value delivered with ok = true is the head that the same step popped *)
+Theorem ok_true_step c t c' va :
+  Inv2 c -> step c t = Some c' -> tres (gett c' t) = tres (gett c t) ++ [RHead va true] ->
+  exists q vs, tph (gett c t) = PPop q /\ qvals (getq c q) = va :: vs /\
+    qvals (getq c' q) = vs /\ qpop (getq c' q) = qpop (getq c q) ++ [va].
+Proof.
+  intros HI2 H. pose proof (step_tid _ _ _ H) as Hlt. pose proof HI2 as [HI HR].
+  apply step_stepR in H; stepR_cases H; rewrite gett_sett_eq by (simpl; auto);
+    try rewrite tres_finish_head; simpl; intros E; tres_inj E.
+  assert (Hq : q < length (queues c)) by (eapply rng_gett; eauto).
+  exists q, vs. rewrite getq_sett, getq_setq_eq by auto. simpl. auto.
+Qed.
+
+(* ------------------------------------------------------------------------- *)
+(* C04: RemoveAll                                                            *)
+(* ------------------------------------------------------------------------- *)
+
+(* Every micro-step of a RemoveAll call: either it sees no token and returns (nothing
+   changed), or it claims one token, or it discards exactly the head of the list.  It never
+   changes the capacity, the closed flag or the append history of any queue.  (The model has
+   no channel identity: the repaired RemoveAll never replaces the channel, so there is
+   nothing to change.) *)
+Theorem removeall_step c t c' qa rest0 :
+  Inv2 c -> step c t = Some c' -> tcalls (gett c t) = CRemoveAll qa :: rest0 ->
+  (forall q0, qcap (getq c' q0) = qcap (getq c q0) /\
+              qclosed (getq c' q0) = qclosed (getq c q0) /\
+              qapp (getq c' q0) = qapp (getq c q0)) /\
+  (forall q0, q0 <> qa -> getq c' q0 = getq c q0) /\
+  ( (tph (gett c t) = PIdle /\ qtok (getq c qa) = 0 /\
+     c' = sett c t (finish (gett c t) rest0 RCleared))
+    \/ (tph (gett c t) = PIdle /\ 0 < qtok (getq c qa) /\
+        qtok (getq c' qa) = qtok (getq c qa) - 1 /\ qvals (getq c' qa) = qvals (getq c qa) /\
+        qpop (getq c' qa) = qpop (getq c qa) /\
+        tph (gett c' t) = PDiscard qa /\ tcalls (gett c' t) = tcalls (gett c t))
+    \/ (tph (gett c t) = PDiscard qa /\
+        exists v vs, qvals (getq c qa) = v :: vs /\ qvals (getq c' qa) = vs /\
+          qpop (getq c' qa) = qpop (getq c qa) ++ [v] /\ qtok (getq c' qa) = qtok (getq c qa) /\
+          tph (gett c' t) = PIdle /\ tcalls (gett c' t) = tcalls (gett c t)) ).
+Proof.
+  intros [HI HR] H Hc0. pose proof (step_tid _ _ _ H) as Hlt.
+  assert (Hth : T_inv (gett c t)) by (apply T_inv_gett; apply HI).
+  apply step_stepR in H; stepR_cases H; try (rewrite Hc0 in Hc; discriminate).
+  - (* claim *)
+    rewrite Hc0 in Hc; inversion Hc; subst.
+    assert (Hq : q < length (queues c)) by (now apply getq_tok_inrange).
+    split; [intros q0; split; [frame_field qcap | split; [frame_field qclosed | frame_field qapp]]|].
+    split; [intros q0 Hne; rewrite getq_sett; now apply getq_setq_neq|].
+    right; left. rewrite gett_sett_eq by (simpl; auto).
+    rewrite getq_sett, getq_setq_eq by auto. simpl. repeat split; auto.
+  - (* done *)
+    rewrite Hc0 in Hc; inversion Hc; subst.
+    split; [intros q0; repeat split; reflexivity|].
+    split; [intros q0 Hne; reflexivity|].
+    left. auto.
+  - (* discard *)
+    unfold T_inv in Hth; rewrite Hph in Hth. destruct Hth as (rest' & E).
+    rewrite Hc0 in E; inversion E; subst.
+    assert (Hq : q < length (queues c)) by (eapply rng_gett; eauto).
+    split; [intros q0; split; [frame_field qcap | split; [frame_field qclosed | frame_field qapp]]|].
+    split; [intros q0 Hne; rewrite getq_sett; now apply getq_setq_neq|].
+    right; right. split; auto. exists v, vs. rewrite gett_sett_eq by (simpl; auto).
+    rewrite getq_sett, getq_setq_eq by auto. simpl. repeat split; auto.
+  - (* discard on an empty list: excluded *)
+    exfalso. assert (Hq : q < length (queues c)) by (eapply rng_gett; eauto).
+    pose proof (holds_le_vals c q t HI Hq Hlt) as Hle.
+    rewrite (holds_disc q q _ Hph), Nat.eqb_refl, Hv in Hle. simpl in Hle. lia.
+Qed.
+
+(* ------------------------------------------------------------------------- *)
+(* C04: exactly-once delivery (programs without RemoveAll)                   *)
+(* ------------------------------------------------------------------------- *)
+
+Fixpoint heads (rs : list result) : list Z :=
+  match rs with
+  | [] => []
+  | RHead v true :: r => v :: heads r
+  | _ :: r => heads r
+  end.
+
+(* every value some RemoveHead returned with ok = true, thread by thread *)
+Definition delivered (c : config) : list Z := concat (map (fun th => heads (tres th)) (threads c)).
+(* every value popped from some queue *)
+Definition popped (c : config) : list Z := concat (map qpop (queues c)).
+
+(* a thread that never calls RemoveAll *)
+Definition NoRA (th : thread) : Prop :=
+  (forall q, tph th <> PDiscard q) /\ (forall q, ~ In (CRemoveAll q) (tcalls th)).
+
+Lemma heads_app a b : heads (a ++ b) = heads a ++ heads b.
+Proof.
+  induction a as [|r a IH]; simpl; auto.
+  destruct r as [|v [|]| | | | | | | |]; simpl; now rewrite ?IH.
+Qed.
+
+Lemma concat_set_nth_ext {A B} (f : A -> list B) t x l d ex :
+  t < length l -> f x = f (nth t l d) ++ ex ->
+  Permutation (concat (map f (set_nth t x l))) (concat (map f l) ++ ex).
+Proof.
+  intros Hlt Hf. pose proof (concat_set_nth_perm f t x l d Hlt) as H. rewrite Hf in H.
+  apply Permutation_app_inv_r with (l := f (nth t l d)).
+  etransitivity; [exact H|].
+  rewrite <- !app_assoc. apply Permutation_app_head. apply Permutation_app_comm.
+Qed.
+
+Lemma continue_no_ra l v ok q : ~ In (CRemoveAll q) (fst (continue l v ok)).
+Proof.
+  destruct l, ok; simpl; intros H;
+    repeat match goal with
+    | H : In _ (_ ++ _) |- _ => apply in_app_or in H; destruct H as [H|H]
+    | H : In _ (map _ _) |- _ => apply in_map_iff in H; destruct H as (? & ? & ?)
+    | H : In _ (_ :: _) |- _ => destruct H as [H|H]
+    | H : In _ [] |- _ => destruct H
+    | H : _ \/ _ |- _ => destruct H as [H|H]
+    | H : False |- _ => destruct H
+    end; subst; try discriminate.
+Qed.
+
+Lemma NoRA_gett c t : Forall NoRA (threads c) -> t < length (threads c) -> NoRA (gett c t).
+Proof. intros H Hlt. unfold gett. rewrite Forall_forall in H. apply H. now apply nth_In. Qed.
+
+Lemma step_preserves_nora c t c' :
+  Forall NoRA (threads c) -> step c t = Some c' -> Forall NoRA (threads c').
+Proof.
+  intros HN H. pose proof (step_tid _ _ _ H) as Hlt.
+  pose proof (NoRA_gett c t HN Hlt) as [Np Nc].
+  apply step_stepR in H; stepR_cases H; simpl; apply Forall_set_nth; auto;
+    try (exfalso; eapply Np; eauto; fail);
+    try (exfalso; eapply Nc; rewrite Hc; left; eauto; fail);
+    try (split; simpl; [intros; discriminate | exact Nc]; fail);
+    try (split; simpl; [intros; discriminate | intros q' Hin; apply (Nc q'); rewrite Hc; right; exact Hin]; fail).
+  - split; [rewrite tph_finish_head; intros; discriminate|].
+    intros q' Hin. unfold finish_head in Hin.
+    pose proof (continue_no_ra (tloop (gett c t)) 0%Z false q') as Hn.
+    destruct (continue (tloop (gett c t)) 0%Z false) as [more l']. simpl in *.
+    apply in_app_or in Hin. destruct Hin as [Hin|Hin]; [|tauto].
+    apply (Nc q'); rewrite Hc; right; exact Hin.
+  - split; [rewrite tph_finish_head; intros; discriminate|].
+    intros q' Hin. unfold finish_head in Hin.
+    pose proof (continue_no_ra (tloop (gett c t)) v true q') as Hn.
+    destruct (continue (tloop (gett c t)) v true) as [more l']. simpl in *.
+    apply in_app_or in Hin. destruct Hin as [Hin|Hin]; [|tauto].
+    apply (Nc q'); rewrite Hc; right; exact Hin.
+Qed.
+
+Lemma popped_upd_same c c' q s' :
+  queues c' = set_nth q s' (queues c) -> qpop s' = qpop (getq c q) -> popped c' = popped c.
+Proof.
+  intros E H. unfold popped. rewrite E. f_equal. now apply map_set_nth_same with (d := dummyq).
+Qed.
+
+Lemma delivered_upd c c' t th' ex :
+  threads c' = set_nth t th' (threads c) -> t < length (threads c) ->
+  heads (tres th') = heads (tres (gett c t)) ++ ex ->
+  Permutation (delivered c') (delivered c ++ ex).
+Proof.
+  intros E Hlt H. unfold delivered. rewrite E.
+  apply (concat_set_nth_ext (fun th => heads (tres th)) t th' (threads c) dummyt ex); auto.
+Qed.
+
+(* one step adds the same values (none, or the popped head) to both sides *)
+Lemma step_delivered c t c' :
+  Forall NoRA (threads c) -> step c t = Some c' ->
+  exists l, Permutation (delivered c') (delivered c ++ l) /\
+            Permutation (popped c') (popped c ++ l).
+Proof.
+  intros HN H. pose proof (step_tid _ _ _ H) as Hlt.
+  pose proof (NoRA_gett c t HN Hlt) as [Np Nc].
+  apply step_stepR in H; stepR_cases H;
+    try (exfalso; eapply Np; eauto; fail);
+    try (exists []; split;
+         [ eapply delivered_upd; [reflexivity | exact Hlt |];
+           rewrite ?tres_finish_head; simpl; rewrite ?heads_app; simpl;
+           rewrite ?app_nil_r; reflexivity
+         | rewrite app_nil_r;
+           match goal with |- Permutation ?a ?b =>
+             replace a with b; [apply Permutation_refl | symmetry] end;
+           first [ reflexivity
+                 | eapply (popped_upd_same c _ q); [reflexivity | reflexivity] ] ]; fail).
+  (* the pop step *)
+  exists [v]. split.
+  - eapply delivered_upd; [reflexivity | exact Hlt |].
+    rewrite tres_finish_head, heads_app. reflexivity.
+  - assert (Hq : q < length (queues c)) by (apply getq_vals_inrange; rewrite Hv; discriminate).
+    apply (concat_set_nth_ext qpop q _ (queues c) dummyq [v]); auto.
+Qed.
+
+Definition no_removeall (c : config) : Prop := Forall NoRA (threads c).
+
+Lemma initial_delivered c : initial c -> delivered c = [] /\ popped c = [].
+Proof.
+  intros [[caps Hq] Hf]. unfold delivered, popped. rewrite Hq. split.
+  - induction Hf as [|h tl [_ Hr] _ IH]; simpl; auto. now rewrite Hr, IH.
+  - clear. induction caps; simpl; auto.
+Qed.
+
+Theorem exactly_once c0 c :
+  initial c0 -> no_removeall c0 -> reachable c0 c -> Permutation (delivered c) (popped c).
+Proof.
+  intros Hi Hn [s <-].
+  cut (no_removeall (run c0 s) /\ Permutation (delivered (run c0 s)) (popped (run c0 s))); [tauto|].
+  apply (run_ind_inv (fun c => no_removeall c /\ Permutation (delivered c) (popped c))).
+  - intros c t c' [HN HP] H. split; [eapply step_preserves_nora; eauto|].
+    destruct (step_delivered c t c' HN H) as (l & A & B).
+    rewrite A, B. now apply Permutation_app_tail.
+  - split; auto. destruct (initial_delivered c0 Hi) as [-> ->]. constructor.
+Qed.
+
+(* single queue *)
+Theorem exactly_once_single c0 c cap :
+  initial c0 -> queues c0 = [mkq cap] -> no_removeall c0 -> reachable c0 c ->
+  Permutation (delivered c) (qpop (getq c 0)).
+Proof.
+  intros Hi Hq Hn Hr. pose proof (exactly_once c0 c Hi Hn Hr) as H.
+  destruct Hr as [s <-].
+  pose proof (run_queues_length c0 s) as Hl. rewrite Hq in Hl. simpl in Hl.
+  unfold popped in H. unfold getq.
+  destruct (queues (run c0 s)) as [|s0 [|s1 r]]; simpl in Hl; try discriminate.
+  simpl in *. now rewrite app_nil_r in H.
+Qed.
+
+(* in a final configuration without panicked threads nobody is inside a call: every value
+   whose AddValue completed was popped exactly once or is still available behind a token *)
+Definition no_stuck (c : config) : Prop := Forall (fun th => tph th <> PStuck) (threads c).
+
+Lemma final_no_holds c q :
+  final c = true -> no_stuck c -> list_sum (map (holds q) (threads c)) = 0.
+Proof.
+  unfold final, no_stuck. intros Hf Hs.
+  assert (Hall : forall th, In th (threads c) -> tph th = PIdle).
+  { intros th Hin. rewrite forallb_forall in Hf. specialize (Hf th Hin).
+    rewrite Forall_forall in Hs. specialize (Hs th Hin). unfold thread_done in Hf.
+    destruct (tph th) eqn:E; auto; try discriminate. congruence. }
+  revert Hall. generalize (threads c) as l.
+  induction l as [|h tl IH]; intros Hall; simpl; auto.
+  rewrite holds_idle by (apply Hall; now left). rewrite IH; auto.
+  intros th Hin; apply Hall; now right.
+Qed.
+
+Theorem final_accounting c0 c q :
+  initial c0 -> reachable c0 c -> final c = true -> no_stuck c ->
+  qapp (getq c q) = qpop (getq c q) ++ qvals (getq c q) /\
+  length (qvals (getq c q)) = qtok (getq c q).
+Proof.
+  intros Hi Hr Hf Hs. split; [now apply (fifo_prefix c0)|].
+  destruct (Nat.lt_ge_cases q (length (queues c))) as [Hq|Hq].
+  - pose proof (reachable_inv _ _ Hi Hr) as [_ HQ]. specialize (HQ q Hq).
+    apply Q_inv_iff in HQ. destruct HQ as (_ & B & _).
+    rewrite (final_no_holds c q Hf Hs) in B. lia.
+  - rewrite getq_oob by auto. reflexivity.
+Qed.
